@@ -278,3 +278,98 @@ Qed.
 
 Lemma aggregate_NoDup rows : NoDup (map fst (aggregate rows)).
 Proof. rewrite aggregate_keys. exact (keys_NoDup rows). Qed.
+
+(* ---------------------------------------------------------------------------------------------------------- *)
+(* the median as a rank statement: at most half of the scores lie strictly below it, at most half strictly above *)
+
+Lemma split_at_nth (s : list Z) : forall i, (i < length s)%nat -> s = firstn i s ++ nth i s 0 :: skipn (S i) s.
+Proof.
+  induction s as [|x s IH]; intros [|i] H; cbn in *; try lia; [reflexivity|]. f_equal. apply IH. lia.
+Qed.
+
+Lemma sorted_app_mid a m b : StronglySorted Z.le (a ++ m :: b) -> Forall (fun x => x <= m) a /\ Forall (fun x => m <= x) b.
+Proof.
+  induction a as [|y a IH]; cbn; intros H.
+  - split; [constructor|]. apply StronglySorted_inv in H. apply H.
+  - apply StronglySorted_inv in H. destruct H as [Hs Hall]. destruct (IH Hs) as [Ha Hb]. split; [|exact Hb].
+    constructor; [|exact Ha]. rewrite Forall_forall in Hall. apply Hall. apply in_or_app. right. left. reflexivity.
+Qed.
+
+Lemma filter_nil_Forall {A} (P : A -> bool) l : Forall (fun x => P x = false) l -> filter P l = [].
+Proof. induction 1 as [|x l Hx _ IH]; [reflexivity|]. cbn. rewrite Hx. exact IH. Qed.
+
+Lemma filter_length_le' {A} (P : A -> bool) l : (length (filter P l) <= length l)%nat.
+Proof. induction l as [|x l IH]; cbn; [lia|]. destruct (P x); cbn; lia. Qed.
+
+(* in a sorted list split at position i: a predicate that fails from s[i] on holds for at most i elements,
+   one that fails up to s[i] holds for at most n - i - 1 elements *)
+Lemma count_low (s : list Z) (P : Z -> bool) i : (i < length s)%nat -> StronglySorted Z.le s ->
+  (forall x, nth i s 0 <= x -> P x = false) -> (length (filter P s) <= i)%nat.
+Proof.
+  intros Hi Hs HP. rewrite (split_at_nth s i Hi) in Hs |- *. destruct (sorted_app_mid _ _ _ Hs) as [_ Hb].
+  rewrite filter_app. cbn [filter]. rewrite HP by lia.
+  rewrite (filter_nil_Forall P (skipn (S i) s)).
+  - rewrite app_nil_r. etransitivity; [apply filter_length_le'|]. rewrite firstn_length. lia.
+  - eapply Forall_impl; [|exact Hb]. intros x Hx. apply HP. exact Hx.
+Qed.
+Lemma count_high (s : list Z) (P : Z -> bool) i : (i < length s)%nat -> StronglySorted Z.le s ->
+  (forall x, x <= nth i s 0 -> P x = false) -> (length (filter P s) + S i <= length s)%nat.
+Proof.
+  intros Hi Hs HP. pose proof (split_at_nth s i Hi) as E. rewrite E in Hs.
+  destruct (sorted_app_mid _ _ _ Hs) as [Ha _].
+  assert (L : length s = (i + S (length (skipn (S i) s)))%nat).
+  { rewrite E at 1. rewrite app_length, firstn_length. cbn [length]. lia. }
+  rewrite E at 1. rewrite filter_app. cbn [filter]. rewrite HP by lia.
+  rewrite (filter_nil_Forall P (firstn i s)).
+  - cbn [app]. pose proof (filter_length_le' P (skipn (S i) s)). lia.
+  - eapply Forall_impl; [|exact Ha]. intros x Hx. apply HP. exact Hx.
+Qed.
+
+Lemma sorted_adjacent (s : list Z) i : (S i < length s)%nat -> StronglySorted Z.le s -> nth i s 0 <= nth (S i) s 0.
+Proof.
+  intros Hi Hs. pose proof (split_at_nth s (S i) Hi) as E. rewrite E in Hs.
+  destruct (sorted_app_mid _ _ _ Hs) as [Ha _]. rewrite Forall_forall in Ha. apply Ha.
+  replace (nth i s 0) with (nth i (firstn (S i) s) 0).
+  - apply nth_In. rewrite firstn_length. lia.
+  - rewrite <- (firstn_skipn (S i) s) at 2. rewrite app_nth1; [reflexivity|]. rewrite firstn_length. lia.
+Qed.
+
+Definition below2 (m2 x : Z) : bool := 2 * x <? m2.     (* x < m2/2 *)
+Definition above2 (m2 x : Z) : bool := m2 <? 2 * x.     (* x > m2/2 *)
+
+Theorem median2_rank l : l <> [] ->
+  (2 * length (filter (below2 (median2 l)) l) <= length l)%nat /\
+  (2 * length (filter (above2 (median2 l)) l) <= length l)%nat.
+Proof.
+  intros Hne. set (s := sort l). assert (Hp : Permutation s l) by apply sort_perm.
+  assert (Hs : StronglySorted Z.le s) by apply sort_sorted.
+  assert (Hn : (0 < length s)%nat).
+  { rewrite (Permutation_length Hp). destruct l; [contradiction|cbn; lia]. }
+  rewrite <- (Permutation_length Hp).
+  rewrite <- (Permutation_length (Permutation_filter' (below2 (median2 l)) _ _ Hp)).
+  rewrite <- (Permutation_length (Permutation_filter' (above2 (median2 l)) _ _ Hp)).
+  unfold median2. fold s. set (n := length s) in *.
+  destruct (Nat.even n) eqn:Ev.
+  - apply Nat.even_spec in Ev. destruct Ev as [h Eh].
+    assert (Hh : (n / 2 = h)%nat) by (rewrite Eh, Nat.mul_comm; apply Nat.div_mul; lia).
+    rewrite Hh. assert (h1 : (S (h - 1) = h)%nat) by lia.
+    pose proof (sorted_adjacent s (h - 1)) as Hadj. rewrite h1 in Hadj. specialize (Hadj ltac:(lia) Hs).
+    split.
+    + pose proof (count_low s (below2 (nth (h - 1) s 0%Z + nth h s 0%Z)) h ltac:(lia) Hs) as H.
+      assert (length (filter (below2 (nth (h - 1) s 0%Z + nth h s 0%Z)) s) <= h)%nat; [|lia].
+      apply H. intros x Hx. unfold below2, above2. apply Z.ltb_ge. lia.
+    + pose proof (count_high s (above2 (nth (h - 1) s 0%Z + nth h s 0%Z)) (h - 1) ltac:(lia) Hs) as H.
+      assert (length (filter (above2 (nth (h - 1) s 0%Z + nth h s 0%Z)) s) + S (h - 1) <= n)%nat; [|lia].
+      apply H. intros x Hx. unfold below2, above2. apply Z.ltb_ge. lia.
+  - assert (Eo : Nat.odd n = true) by (rewrite <- Nat.negb_even, Ev; reflexivity).
+    apply Nat.odd_spec in Eo. destruct Eo as [h Eh].
+    assert (Hh : (n / 2 = h)%nat).
+    { rewrite Eh. replace (2 * h + 1)%nat with (1 + h * 2)%nat by lia. rewrite Nat.div_add by lia. reflexivity. }
+    rewrite Hh. split.
+    + pose proof (count_low s (below2 (2 * nth h s 0%Z)) h ltac:(lia) Hs) as H.
+      assert (length (filter (below2 (2 * nth h s 0%Z)) s) <= h)%nat; [|lia].
+      apply H. intros x Hx. unfold below2, above2. apply Z.ltb_ge. lia.
+    + pose proof (count_high s (above2 (2 * nth h s 0%Z)) h ltac:(lia) Hs) as H.
+      assert (length (filter (above2 (2 * nth h s 0%Z)) s) + S h <= n)%nat; [|lia].
+      apply H. intros x Hx. unfold below2, above2. apply Z.ltb_ge. lia.
+Qed.
